@@ -59,6 +59,12 @@ def mk (m : List (Str × Str)) (name : Str) (baseFmt : Option Str) : Cls (List S
   value := fun o => .ok (o.attrs.filterMap fun (_, v) => match v with | .str s => if s.isEmpty then none else some s | _ => none)
   render := fun key _ => match alookup key m with | some v => .ok v | none => .error .pyKey
 
+/-- `instance.to_const()` = `dict2const(self.values(), name=<Class>Const, base_fmt=self.base_fmt)`: the mapping is
+    directive ↦ rendering of the instance's value -/
+def ofInstance {V} (C : Cls V) (v : V) : R (Cls (List Str)) := do
+  let m ← C.rows.mapM fun r => (C.render r.1 v).map fun t => (r.1, t)
+  pure (mk m (C.name ++ "Const".toList) (some C.baseFmt))
+
 /-- `Constant.parse(value, fmt)`: a format is mandatory -/
 def parse (C : Cls (List Str)) (value : Str) (fmt : Option Str) (strict : Bool) : R Obj :=
   match fmt with
